@@ -26,7 +26,9 @@ MARK = 'zq9x'
 PALETTE = [u'<zq9x onzq9x="a">&amp;</zq9x>', u'"\'><zq9x>', u'{code} {detail!r} {0} {zq9x}', u'{#s}{zq9x}{/s}{>zq9x/}',
            u'\xfcn\xef ☃ zq9x', u'&lt;zq9x&gt; &amp;amp;', u']]><zq9x/>', u'<!--zq9x--><zq9x>', u'</title></p></pre><zq9x>',
            u'</script><zq9x>', u'http://x/" onzq9x="1', u"http://x/'><zq9x>", u'javascript:zq9x', u'plain zq9x text',
-           u'a\x0bb\x1f zq9x']
+           u'a\x0bb\x1f zq9x',
+           # long, markup-dense texts (whatever is done to long fields must happen before escaping, not after)
+           u'x' + u'<zq9x>&"\'' * 600, u'xx' + u'<&>' * 1500, u'xxx' + u'&<zq9x a="1">' * 400]
 XML_SAFE = [p for p in PALETTE if not re.search(u'[\x00-\x08\x0b\x0c\x0e-\x1f]', p)]
 VOID = set(['meta', 'link', 'br', 'hr', 'img', 'input', 'area', 'base', 'col', 'embed', 'param', 'source', 'track', 'wbr'])
 
